@@ -22,6 +22,13 @@ def corr_pt(ctx, n):
     for k in range(n):
         pts, normal = geomgen.convex_polygon(ctx.rng)
         x = geomgen.point_off_plane(ctx.rng, pts, normal, min_dist=float(ctx.rng.choice([1e-3, 0.05, 0.5])))
+        if k % 4 == 3:
+            # a SMALL patch (5..30 cm) with the point 1..4 mm above its interior: fine subdivisions with a source close to a wall
+            pts, normal = geomgen.convex_polygon(ctx.rng, size=float(ctx.rng.uniform(0.05, 0.3)))
+            c = pts.mean(axis=0)
+            x = c + 0.3 * (pts[int(ctx.rng.integers(0, len(pts)))] - c) * float(ctx.rng.uniform(0, 1)) \
+                + float(ctx.rng.choice([-1.0, 1.0])) * float(ctx.rng.uniform(1e-3, 4e-3)) * np.asarray(normal)
+            ctx.count('small_patch_close_point')
         for mode in (0, 1):
             v = integration.pt_solution(point=x.copy(), patch_points=pts.copy(), mode='source' if mode == 0 else 'receiver')
             lines.append(' '.join(['ptsol', str(mode), str(len(pts)), fhexs(x), fhexs(pts)]))
